@@ -5,6 +5,7 @@ use vstd::prelude::*;
 use core::marker::PhantomData;
 verus! {
 //@include prelude/bytes.rs
+//@include prelude/conv.rs
 //@include prelude/hmap_opaque.rs
 //@include prelude/alloc.rs
 //@include prelude/batch_spec.rs
